@@ -287,6 +287,101 @@ def case_trimid(ctx, inp):
         ctx.branch("trimid-rechunked")
 
 
+def case_ovb(ctx, inp):
+    """overlap(x, depth, boundary) with a boundary other than 'none': every computed block vs the Lean model
+    `overlapWithBoundary` (pad block, share d cells, cut the two pad blocks off), pads from the Lean index maps."""
+    import numpy as np
+    import dask.array as da
+    from dask.array.overlap import overlap
+    chunks = tuple(tuple(c) for c in inp["chunks"])
+    shape = tuple(sum(c) for c in chunks)
+    x = np.arange(int(np.prod(shape))).reshape(shape) + 1
+    d = da.from_array(x, chunks=chunks)
+    depth = {i: v for i, v in enumerate(inp["depth"])}
+    bnd = {i: v for i, v in enumerate(inp["boundary"])}
+    g = overlap(d, depth, bnd, allow_rechunk=False)
+    per_axis = []
+    for ax, c in enumerate(chunks):
+        dep, k = depth[ax], bnd[ax]
+        if dep == 0 or k == "none":
+            per_axis.append(unsym(ctx.lean(Sym("overlapblocks"), dep, dep, _split(c))))
+            continue
+        lk = k if k in KINDS else "constant"
+        pads = unsym(ctx.lean(Sym("padpositions"), Sym(lk), dep, shape[ax]))
+        enc = [-1 if v is None else v for v in pads]
+        per_axis.append(unsym(ctx.lean(Sym("overlapboundary"), dep, enc[:dep], enc[len(enc) - dep:], _split(c))))
+    if tuple(len(p) for p in per_axis) != g.numblocks:
+        ctx.disagree("overlap(): number of blocks", [len(p) for p in per_axis], list(g.numblocks))
+        return
+    fill = {ax: (bnd[ax] if bnd[ax] not in KINDS and bnd[ax] != "none" else None) for ax in range(len(shape))}
+    for idx, blk in _blocks_of(g).items():
+        pos = [per_axis[ax][b] for ax, b in enumerate(idx)]
+        if blk.shape != tuple(len(p) for p in pos):
+            ctx.disagree("overlap() block shape", [list(idx), [len(p) for p in pos]], [list(idx), list(blk.shape)])
+            return
+        want = tuple(g.chunks[ax][b] for ax, b in enumerate(idx))
+        if blk.shape != want:
+            ctx.fail("overlap(): computed block shape differs from the declared chunks", observed=[list(idx), list(blk.shape)],
+                     expected=list(want))
+            return
+        it = np.nditer(blk, flags=["multi_index"])
+        for v in it:
+            src = [pos[ax][p] for ax, p in enumerate(it.multi_index)]
+            neg = [a for a, sv in enumerate(src) if sv < 0]
+            w = fill[neg[-1]] if neg else x[tuple(src)]
+            if int(v) != int(w):
+                ctx.disagree("overlap() block cell", [list(idx), list(it.multi_index), int(w)], [list(idx), list(it.multi_index), int(v)])
+                return
+    for k in set(bnd.values()):
+        ctx.branch("ovb-" + (k if isinstance(k, str) else "constant"))
+    if any(len(c) > 2 for c in chunks):
+        ctx.branch("ovb-interior-blocks")
+
+
+def case_swvblocks(ctx, inp):
+    """sliding_window_view along one axis of a 1-d / 2-d array whose chunks need no rechunking: every computed block vs
+    the Lean `slidingBlocks`; their concatenation vs Lean `windows` of the whole axis (the proved identity) and NumPy."""
+    import numpy as np
+    import dask.array as da
+    chunks = tuple(tuple(c) for c in inp["chunks"])
+    shape = tuple(sum(c) for c in chunks)
+    w, axis = inp["window"], inp["axis"]
+    x = np.arange(int(np.prod(shape))).reshape(shape)
+    d = da.from_array(x, chunks=chunks)
+    r = da.lib.stride_tricks.sliding_window_view(d, w, axis=axis, automatic_rechunk=False)
+    if r.chunks[:len(shape)][axis] != chunks[axis][:-1] + (chunks[axis][-1] - (w - 1),) or \
+            any(r.chunks[a] != chunks[a] for a in range(len(shape)) if a != axis):
+        ctx.branch("swvblocks-rechunked")     # ensure_minimum_chunksize changed the chunks: compared at API level only
+        return
+    model = unsym(ctx.lean(Sym("slidingblocks"), w, _split(chunks[axis])))
+    exp = np.lib.stride_tricks.sliding_window_view(x, w, axis=axis)
+    flat = [win for blk in model for win in blk]
+    n = shape[axis]
+    ref = [list(range(i, i + w)) for i in range(n - w + 1)]
+    ctx.eq("concatenated Lean block windows = windows of the whole axis", flat, ref)
+    for idx, blk in _blocks_of(r).items():
+        wins = model[idx[axis]]
+        # positions along `axis` of the windows this block holds; other axes: the block's own extent
+        sl = [slice(sum(chunks[a][:idx[a]]), sum(chunks[a][:idx[a] + 1])) for a in range(len(shape))]
+        sub = x[tuple(sl[a] if a != axis else slice(None) for a in range(len(shape)))]
+        want = np.stack([np.take(sub, wv, axis=axis) for wv in wins], axis=axis) if wins else None
+        if want is None:
+            if blk.size:
+                ctx.disagree("sliding_window_view block", [list(idx), []], [list(idx), blk.tolist()])
+                return
+            continue
+        want = np.moveaxis(want, axis + 1, -1)
+        if blk.shape != want.shape or (blk != want).any():
+            ctx.disagree("sliding_window_view block", [list(idx), want.tolist()], [list(idx), blk.tolist()])
+            return
+    got = np.asarray(r.compute(scheduler="sync"))
+    if got.shape != exp.shape or (got != exp).any():
+        ctx.fail("sliding_window_view differs from NumPy", observed=list(got.shape), expected=list(exp.shape))
+    ctx.branch("swvblocks")
+    if len(chunks[axis]) > 2:
+        ctx.branch("swvblocks-interior")
+
+
 def _stencil(weights, axis_offsets):
     """a linear stencil with zero fill beyond the array given to it: out[i] = sum_k w_k * a[i + off_k]"""
     import numpy as np
@@ -514,7 +609,7 @@ def case_swv(ctx, inp):
         ctx.branch("swv-repeated-axis")
 
 
-CASES = {"mapov3": case_mapov3, "mapov2": case_mapov2, "chunks": case_chunks, "emc": case_emc, "blocks": case_blocks, "bnd": case_bnd, "trimid": case_trimid,
+CASES = {"ovb": case_ovb, "swvblocks": case_swvblocks, "mapov3": case_mapov3, "mapov2": case_mapov2, "chunks": case_chunks, "emc": case_emc, "blocks": case_blocks, "bnd": case_bnd, "trimid": case_trimid,
          "mapov": case_mapov, "swv": case_swv}
 
 
@@ -639,6 +734,21 @@ def generate(ctx):
             yield "mapov3", {"mode": mode, "chunks": [[rng.randint(1, 3)], list(random_chunks(rng, rng.randint(dep, 8)))],
                              "depth": dep, "boundary": rng.choice(["none", "reflect", "periodic", "nearest", 2]),
                              "offsets": offs, "weights": ws}
+    # overlap() with a boundary: blocks vs the Lean overlapWithBoundary
+    for _ in range(ctx.n(70, 1000)):
+        nd = rng.randint(1, 2)
+        bnd = [rng.choice(["periodic", "reflect", "nearest", "none", 0, 7]) for _ in range(nd)]
+        depth = [rng.randint(0, 2) for _ in range(nd)]
+        chunks = [_chunks_at_least(rng, rng.randint(max(1, dd), 7), max(1, dd)) for dd in depth]
+        yield "ovb", {"chunks": chunks, "depth": depth, "boundary": bnd}
+    # sliding_window_view block by block
+    for _ in range(ctx.n(70, 1000)):
+        nd = rng.randint(1, 2)
+        axis = rng.randrange(nd)
+        w = rng.randint(1, 4)
+        chunks = [list(random_chunks(rng, rng.randint(1, 4))) for _ in range(nd)]
+        chunks[axis] = _chunks_at_least(rng, rng.randint(w, w + 12), w)
+        yield "swvblocks", {"chunks": chunks, "window": w, "axis": axis}
     # sliding_window_view
     for _ in range(ctx.n(50, 800)):
         nd = rng.randint(1, 3)
